@@ -26,7 +26,7 @@ import (
 )
 
 type concParty struct {
-	Role   string `json:"role"` // writer | failing-writer | reader
+	Role   string `json:"role"` // writer | failing-writer | reader | purger (gts cache purge: removes every file of the directory)
 	Writes []int  `json:"writes,omitempty"`
 	// KillAt: the party is killed inside its KillAt-th operation (torn by Torn
 	// bytes if that is a write); < 0: it runs to its end.
@@ -277,7 +277,13 @@ func (r *concRun) exec() {
 						results[i].pnc = fmt.Sprintf("%v\n%s", x, debug.Stack())
 					}
 				}()
-				if sc.Parties[i].Role == "reader" {
+				if sc.Parties[i].Role == "purger" {
+					if ents, err := simos.ReadDir(libCacheDir); err == nil {
+						for _, e := range ents {
+							simos.Remove(libCacheDir + "/" + e.Name())
+						}
+					}
+				} else if sc.Parties[i].Role == "reader" {
 					readerBody(sc, sc.Parties[i], results[i])
 				} else {
 					writerBody(sc, sc.Parties[i], r.bodies[keyOf(sc, sc.Parties[i])])
@@ -487,14 +493,14 @@ func genConc(r *core.RNG, tier string) *concScenario {
 	}
 	np := r.Range(2, 3)
 	for i := 0; i < np; i++ {
-		p := concParty{Role: []string{"writer", "writer", "writer", "failing-writer", "reader"}[r.Intn(5)], Writes: genWrites(r), KillAt: -1}
+		p := concParty{Role: []string{"writer", "writer", "writer", "failing-writer", "reader", "reader", "purger"}[r.Intn(7)], Writes: genWrites(r), KillAt: -1}
 		if i == 0 {
 			p.Role = "writer"
 		}
 		if p.Role == "failing-writer" {
 			p.FailAfter = r.Intn(4)
 		}
-		if p.Role != "reader" && r.Chance(1, 3) {
+		if p.Role != "reader" && p.Role != "purger" && r.Chance(1, 3) {
 			p.KillAt = r.Intn(60)
 			p.Torn = r.Intn(300)
 		}
